@@ -85,11 +85,33 @@ func runChunk(self string, lines []string, out []string, idx []int) {
 	}
 }
 
+// sweepStale removes scratch directories of c13 driver processes that no longer exist
+// (a killed run cannot run its deferred cleanup).
+func sweepStale() {
+	entries, err := os.ReadDir(scratchBase())
+	if err != nil {
+		return
+	}
+	for _, e := range entries {
+		if !strings.HasPrefix(e.Name(), "c13-") {
+			continue
+		}
+		pid, convErr := strconv.Atoi(strings.TrimPrefix(e.Name(), "c13-"))
+		if convErr != nil {
+			continue
+		}
+		if _, statErr := os.Stat(fmt.Sprintf("/proc/%d", pid)); os.IsNotExist(statErr) {
+			_ = os.RemoveAll(filepath.Join(scratchBase(), e.Name()))
+		}
+	}
+}
+
 func main() {
 	if os.Getenv("VERIF_C13_WORKER") != "" {
 		worker()
 		return
 	}
+	sweepStale()
 	var lines []string
 	in := bufio.NewReaderSize(os.Stdin, 1<<20)
 	for {
